@@ -171,7 +171,7 @@ func c20Inline(r *Rng, depth int) string {
 			parts = append(parts, "`"+Pick(r, []string{"code", "a < b && c", "<tag>", "{{ v }}", "x | y", "&amp;", "a  b"})+"`")
 		case x < 11:
 			title := Pick(r, []string{"", "", ` "a title"`, ` "t & <u>"`, ` 'single'`, ` "with \"escaped\""`})
-			parts = append(parts, "["+c20Inline(r, depth-1)+"]("+Pick(r, []string{"https://example.com/a?b=1&c=2", "/rel/path", "#frag", "<url with spaces>", "http://x.y/ä", "mailto:a@b.c", "/p(q)"})+title+")")
+			parts = append(parts, "["+c20Inline(r, depth-1)+Pick(r, []string{"", "", "", "\\\n", "  \n"})+"]("+Pick(r, []string{"https://example.com/a?b=1&c=2", "/rel/path", "#frag", "<url with spaces>", "http://x.y/ä", "mailto:a@b.c", "/p(q)"})+title+")")
 		case x < 12:
 			parts = append(parts, "!["+Pick(r, []string{"alt", "alt *em* text", "a & b", ""})+"]("+Pick(r, []string{"img.png", "/i/a b.png", "https://x.y/i.png?a=1&b=2"})+Pick(r, []string{"", ` "title"`})+")")
 		case x < 13:
@@ -313,7 +313,14 @@ func runC20(r *Run) {
 		}
 		cg, cr := c20Canon(got), c20Canon(ref)
 		if cg != cr {
-			r.Fail("the rendered document differs from the reference rendering", map[string]string{"oracle": "md-agrees", "class": c20Diff(cg, cr, class)}, map[string]any{"case": desc, "output": got, "reference": ref, "canon_output": cg, "canon_reference": cr})
+			// the known defect (a line break written <br></br> reads as two) is reported as such only when it
+			// is the whole difference: with it taken out of the output the documents must agree
+			cg2 := c20Canon(strings.ReplaceAll(got, "<br></br>", "<br>"))
+			if cg2 == cr {
+				r.Fail("the rendered document differs from the reference rendering", map[string]string{"oracle": "md-agrees", "class": "br"}, map[string]any{"case": desc, "output": got, "reference": ref, "canon_output": cg, "canon_reference": cr})
+			} else {
+				r.Fail("the rendered document differs from the reference rendering", map[string]string{"oracle": "md-agrees", "class": c20Diff(cg2, cr, class)}, map[string]any{"case": desc, "output": got, "reference": ref, "canon_output": cg2, "canon_reference": cr})
+			}
 		}
 	}
 	// no failure on arbitrary bytes
@@ -395,8 +402,8 @@ func c20Diff(a, b, class string) string {
 	}
 	ca, cb := ctx(a), ctx(b)
 	switch {
-	case strings.Contains(ca, "<br>") || strings.Contains(cb, "<br>"):
-		return "br"
+	case strings.Contains(ca, "<br>") != strings.Contains(cb, "<br>"):
+		return "line-break-missing-or-extra"
 	case strings.Contains(ca, "\\") && !strings.Contains(cb, "\\"):
 		return "backslash-escape"
 	}
